@@ -950,7 +950,10 @@ def group_by_function(allow_aggregator_fallback):
             value = t if value_selector is None else value_selector(t)
             groups.setdefault(key_selector(t), []).append(value)
             utils.limit_memory_usage(engine, (1, groups))
-        return select(groups.items(), new_aggregator)
+        # (groups are handed on as yaql lists - tuples -, like every other
+        # collection a function returns: usable as set members / dict keys)
+        return select(((key, tuple(values))
+                       for key, values in groups.items()), new_aggregator)
 
     return group_by
 
